@@ -72,7 +72,7 @@ func splitInts(s string) []int {
 
 func (o stOp) String() string {
 	switch o.kind {
-	case 'A', 'R':
+	case 'A', 'R', 'C', 'X':
 		var ns []string
 		for _, n := range o.ns {
 			ns = append(ns, fmt.Sprintf("%d:%d:%d", n.name, n.count, n.rf))
@@ -95,7 +95,7 @@ func (o stOp) String() string {
 
 func parseStOp(s string) stOp {
 	switch s[0] {
-	case 'A', 'R':
+	case 'A', 'R', 'C', 'X':
 		parts := strings.SplitN(s[1:], "|", 2)
 		o := stOp{kind: s[0], servers: splitInts(parts[1])}
 		if parts[0] != "-" {
@@ -259,6 +259,9 @@ type stRun struct {
 	prevGen  int64
 	hist     map[string][][]sh // per namespace: successive distinct non-empty publications
 	input    string
+	gone     map[string]bool  // namespaces that were in the status and left it (all shards deleted)
+	everNs   map[string]bool
+	zombie   map[int64]bool   // shard ids that came back after their deletion
 	meta     metadata.Provider         // the store behind sr (shared with the coordinators of restart ops)
 	masked   bool                      // coord kind: observable without ensembles / status / term / leader
 	dead     bool                      // a restart did not come back: the case cannot continue
@@ -288,8 +291,8 @@ func (r *stRun) supplier(servers []model.Server) func(*model.NamespaceConfig, *m
 			return res, nil
 		default: // 'S': round robin from ServerIdx over the servers of the config being applied
 			n := uint32(len(servers))
-			if n == 0 {
-				return nil, errors.New("no servers")
+			if n == 0 || nc.ReplicationFactor > n {
+				return nil, errors.New("not enough servers")
 			}
 			res := make([]model.Server, 0, nc.ReplicationFactor)
 			for i := uint32(0); i < nc.ReplicationFactor; i++ {
@@ -385,6 +388,12 @@ func (r *stRun) step(op stOp) string {
 	switch op.kind {
 	case 'A':
 		head = r.apply(op)
+	case 'X': // replay of a linearized ConfigChanged history: the attempt whose Swap succeeded, as an atomic apply
+		if head = r.apply(op); head != "panic" {
+			head = "changed"
+		}
+	case 'C': // a lost compare-and-set attempt stores nothing
+		head = "lost"
 	case 'R':
 		head = r.restart(op)
 		if r.dead {
@@ -468,7 +477,12 @@ func (r *stRun) verdicts(op stOp, st *model.ClusterStatus, pub map[string][]pubS
 				o.Violation("status:id-reused", fmt.Sprintf("shard id %d not below ShardIdGenerator %d after %s; case: %.400s", id, st.ShardIdGenerator, op, r.input))
 			}
 			if old, was := r.seen[id]; was {
-				if !old.alive {
+				if !old.alive && r.gone[old.ns] && old.ns == name {
+					// the namespace had left the status (every shard deleted) and is back with a shard of its deleted incarnation
+					r.zombie[id] = true
+					o.Violation("status:deleted-namespace-resurrected", fmt.Sprintf("namespace %s had been deleted completely and is in the status again with its deleted shard %d (%s) after %s; case: %.400s", name, id, m.Status, op, r.input))
+				} else if !old.alive {
+					r.zombie[id] = true
 					o.Violation("status:id-reused", fmt.Sprintf("shard id %d was deleted and appears again in %s after %s; case: %.400s", id, name, op, r.input))
 				} else if old.ns != name || old.min != m.Int32HashRange.Min || old.max != m.Int32HashRange.Max {
 					o.Violation("status:shard-range-changed", fmt.Sprintf("shard id %d was %s [%d,%d], now %s [%d,%d] after %s; case: %.400s", id, old.ns, old.min, old.max, name, m.Int32HashRange.Min, m.Int32HashRange.Max, op, r.input))
@@ -481,6 +495,14 @@ func (r *stRun) verdicts(op stOp, st *model.ClusterStatus, pub map[string][]pubS
 		if _, ok := ids[id]; !ok && s.alive {
 			s.alive = false
 			r.seen[id] = s
+		}
+	}
+	for name := range st.Namespaces {
+		r.everNs[name] = true
+	}
+	for name := range r.everNs {
+		if _, ok := st.Namespaces[name]; !ok {
+			r.gone[name] = true
 		}
 	}
 	if st.ShardIdGenerator < r.prevGen {
@@ -500,6 +522,10 @@ func (r *stRun) verdicts(op stOp, st *model.ClusterStatus, pub map[string][]pubS
 		switch {
 		case total == 0:
 			o.Violation("status:namespace-not-partitioned", fmt.Sprintf("namespace %s stored without any shard after %s; case: %.400s", name, op, r.input))
+		case len(live) == 0 && configured && r.hasZombie(ns):
+			// not O-18(b): the deletion of the previous incarnation had COMPLETED; what blocks the namespace now is a shard
+			// that a stale status write brought back and that nothing is deleting
+			o.Violation("status:namespace-not-partitioned:readded-after-deletion-completed", fmt.Sprintf("configured namespace %s is published with zero shards: all it holds are %d shards of its completely deleted incarnation, written back into the status; after %s; case: %.400s", name, total, op, r.input))
 		case len(live) == 0 && configured:
 			// O-18(b): the namespace is in the configuration, but all it has are the Deleting shards of its previous incarnation
 			o.Violation("status:namespace-not-partitioned:readded-while-deleting", fmt.Sprintf("configured namespace %s is published with zero shards (all %d shards Deleting) after %s; case: %.400s", name, total, op, r.input))
@@ -527,7 +553,8 @@ func runStatus(o *hx.Out, input string, rng *hx.Rng) {
 	x0, _ := strconv.ParseUint(t[1], 10, 32)
 	meta := metadata.NewMetadataProviderMemory()
 	r := &stRun{o: o, meta: meta, sr: resources.NewStatusResource(meta), inDomain: true,
-		seen: map[int64]seenShard{}, hist: map[string][][]sh{}, input: input, prevGen: g0}
+		seen: map[int64]seenShard{}, hist: map[string][][]sh{}, input: input, prevGen: g0,
+		gone: map[string]bool{}, everNs: map[string]bool{}, zombie: map[int64]bool{}}
 	if t[2] != "-" {
 		r.script = strings.Split(t[2], ",")
 	}
@@ -579,7 +606,7 @@ func runStatus(o *hx.Out, input string, rng *hx.Rng) {
 func (r *stRun) classify(op stOp) {
 	st := r.sr.Load()
 	switch op.kind {
-	case 'A', 'R':
+	case 'A', 'R', 'C', 'X':
 		names := map[int]bool{}
 		for _, n := range op.ns {
 			if n.count < 1 || n.count > 65536 {
@@ -816,4 +843,13 @@ var fixedStatusCases = []string{
 	"9223372036854775805 0 - A1:5:1|1+2+3;A1:5:1+2:1:1|1+2+3",
 	// duplicate namespace names in one configuration (never validated)
 	"0 0 - A1:2:1+1:3:1|1+2+3;A1:2:1|1+2+3",
+}
+
+func (r *stRun) hasZombie(ns model.NamespaceStatus) bool {
+	for id := range ns.Shards {
+		if r.zombie[id] {
+			return true
+		}
+	}
+	return false
 }
